@@ -264,6 +264,7 @@ pub fn read_routes(ctx: &mut Ctx, prop_rt: &str, ty: i32, shp: &[u8], shx: Optio
     let n = expected.len();
     let mk = || World::with_data(rplan.clone(), shp.to_vec(), shx.map(|s| s.to_vec()).unwrap_or_default(), vec![]);
     let mut seq_no_index: Option<Vec<Item>> = None;
+    let mut count_then_iter: Option<(usize, usize)> = None;
 
     for with_index in [false, true] {
         if with_index && shx.is_none() {
@@ -379,6 +380,32 @@ pub fn read_routes(ctx: &mut Ctx, prop_rt: &str, ty: i32, shp: &[u8], shx: Optio
             }
             ctx.stats.absorb_world(&world6.borrow());
         }
+        // Iterator::count(): the number of shapes; what a further iteration on the same reader then
+        // yields must not depend on whether the index was supplied (C04: "iterates identically with
+        // and without the index")
+        {
+            let world8 = mk();
+            if let Open::Ok(mut r8) = open(&world8, with_index, rstack) {
+                match guarded(|| {
+                    let c = r8.iter_shapes().count();
+                    let again = drain(r8.iter_shapes(), cap).0.len();
+                    (c, again)
+                }) {
+                    Ok((c, again)) => {
+                        if c != n {
+                            ctx.fail(prop_rt, "same-count", format!("count/{}", tag), format!("iter_shapes().count() = {} over {} shapes", c, n));
+                        }
+                        match count_then_iter {
+                            None => count_then_iter = Some((c, again)),
+                            Some(prev) if prev != (c, again) => ctx.fail("C04", "with-vs-without-index", "count-then-iterate", format!("count() then a further iteration: ({}, {} items) without index, ({}, {} items) with it", prev.0, prev.1, c, again)),
+                            _ => {}
+                        }
+                    }
+                    Err(p) => ctx.fail(prop_rt, "panic", p.site(), format!("count/{}: {}", tag, p.text())),
+                }
+            }
+            ctx.stats.absorb_world(&world8.borrow());
+        }
         // Iterator::last(): the last shape, having consumed all
         if n >= 1 {
             let world7 = mk();
@@ -471,7 +498,31 @@ pub fn check_c06(ctx: &mut Ctx, ty: i32, shp: &[u8], n: usize, rstack: StackCfg,
     }
 }
 
+/// The types a mismatch error names, as a caller sees them in its message: for every ordered pair of
+/// the 14 kinds, the text of `Error::MismatchShapeType` spells the requested and the actual type by
+/// the names of the 14 kinds (and `ShapeType`'s own Display does).
+fn check_c06_names(ctx: &mut Ctx) {
+    for a in ALL_CODES {
+        let Some(ta) = shapefile::ShapeType::from(a) else { continue };
+        if ta.to_string() != type_name(a) {
+            ctx.fail("C06", "type-name", type_name(a), format!("ShapeType {} (code {}) displays as {:?}", type_name(a), a, ta.to_string()));
+        }
+        for b in ALL_CODES {
+            let Some(tb) = shapefile::ShapeType::from(b) else { continue };
+            let msg = shapefile::Error::MismatchShapeType { requested: ta, actual: tb }.to_string();
+            if !msg.contains(&format!("'{}'", type_name(a))) || !msg.contains(&format!("'{}'", type_name(b))) {
+                ctx.fail("C06", "mismatch-error-names", type_name(a), format!("the mismatch error for requested {} / actual {} reads {:?}", type_name(a), type_name(b), msg));
+                return;
+            }
+        }
+    }
+    ctx.stats.reach("c06-error-names-checked");
+}
+
 fn check_c06_on(ctx: &mut Ctx, ty: i32, shp: &[u8], n: usize, rstack: StackCfg, rplan: &Plan) {
+    if crate::prng::fnv(shp) % 64 == 0 {
+        check_c06_names(ctx);
+    }
     // typed and generic routes read through the same (must-be-masked) transfer schedule
     let mk = || World::with_data(rplan.clone(), shp.to_vec(), vec![], vec![]);
     // generic read
@@ -716,8 +767,11 @@ pub fn execute(scn: &RtScn, ctx: &mut Ctx) {
 /// By-path routes: the same program through ShapeWriter::from_path, read back by path.
 fn path_routes(ctx: &mut Ctx, scn: &RtScn, ty: i32, expected: &[Geom], mem_shp: &[u8], mem_shx: Option<&[u8]>) {
     let dir = crate::scratch_dir();
-    let base = dir.join(format!("rt-{}", crate::prng::fnv_str(&serde_json::to_string(&scn.w).unwrap_or_default())));
-    let shp_path = base.with_extension("shp");
+    let h = crate::prng::fnv_str(&serde_json::to_string(&scn.w).unwrap_or_default());
+    let base = dir.join(format!("rt-{}", h));
+    // the name the caller gives the .shp: lower case, upper case (data sets from case-insensitive
+    // systems), mixed; the writer and the readers derive the sibling names from it
+    let shp_path = base.with_extension(["shp", "SHP", "Shp"][(h % 3) as usize]);
     let area = polygon_area_oracle(expected);
     // the path is not fresh: longer files are already there and must be replaced entirely
     let mut old = mem_shp.to_vec();
@@ -812,6 +866,10 @@ fn path_routes(ctx: &mut Ctx, scn: &RtScn, ty: i32, expected: &[Geom], mem_shp: 
                         let ok = if i < expected.len() { matches!(x, Some(Ok(g)) if diff_read(&expected[i], g, i, &area).is_none()) } else { x.is_none() };
                         if !ok {
                             ctx.fail("C04", "random-access", "path", format!("read_nth_shape({}) by path = {:?}", i, x.as_ref().map(item_short)));
+                            // random access by index on files opened by path is one of C01's reading routes
+                            if i < expected.len() {
+                                ctx.fail("C01", "same-shape", "read_nth_shape/path", format!("read_nth_shape({}) by path (the .shx written next to {:?}) = {:?}", i, shp_path.file_name(), x.as_ref().map(item_short)));
+                            }
                         }
                     }
                 } else if cnt.is_some() {
@@ -911,6 +969,18 @@ pub fn large_unit(unit: u64, ctx: &mut Ctx, ctl: &mut crate::scn::UnitCtl) {
             scns.push(mk(vec![grid_spec(13, 1, 131_077, 11), grid_spec(13, 1, 3, 60)], true, StackCfg::Buf(8192), StackCfg::Buf(8192), false));
             scns.push(mk(vec![grid_spec(3, 1, 2, 60), grid_spec(3, 2, 131_073, 11)], false, StackCfg::Buf(8192), StackCfg::Buf(8192), false));
             scns.push(mk(vec![grid_spec(28, 1, 262_149, 11)], true, StackCfg::Buf(8192), StackCfg::Buf(8192), false));
+        }
+        6 => {
+            // many records around 2^16 and 2^17 (a writer may do something every so many records); the
+            // last shape lies far away from all others, so that it alone sets the header's extremes
+            for (i, n) in [65_535usize, 65_536, 65_537, 70_000, 131_072].iter().enumerate() {
+                let ty = [1, 11, 21, 1, 11][i];
+                let mut shapes: Vec<ShapeSpec> = (0..*n).map(|k| grid_spec(ty, 1, 1, k % 1000)).collect();
+                if let Some(last) = shapes.last_mut() {
+                    last.parts[0].pts[0] = [(-7.5e8f64).to_bits(), 6.5e8f64.to_bits(), 5.5e8f64.to_bits(), (-4.5e8f64).to_bits()];
+                }
+                scns.push(mk(shapes, i % 2 == 0, StackCfg::Buf(8192), StackCfg::Buf(8192), false));
+            }
         }
         5 => {
             // thorough tier only: one part beyond 2^20 points (a 32 MiB record)
